@@ -1,13 +1,13 @@
 (* Props/C09.v — property C09: dynamic linking information is exact, with or without
    section headers.  Only statements, closed by [exact]; proofs live in
-   Proofs/C09Tables.v, C09Tags.v, C09Hash.v, C09Views.v, C09Relocs.v, C09Syms.v (C09Examples.v: the inputs of the Examples).
+   Proofs/C09Tables.v, C09Tags.v, C09Hash.v, C09Views.v, C09Relocs.v, C09Syms.v, C09Seg.v (C09Examples.v: the inputs of the Examples).
    Model: Model/C09Dynamic.v (transliteration of elf/dynamic.py, elf/hash.py
    get_number_of_symbols, the parts of elf/elffile.py, sections.py, relocation.py the
    Dynamic classes call; record layouts and decoding dicts are regenerated from the live
    code into Gen/ElfLayouts.v).  Meaning: Spec/C09Dyn.v (gABI dynamic section, hash
    tables, program header; GNU hash format). *)
 From PV Require Import Base.Outcome Base.Fmt Base.Enum Gen.ElfLayouts Spec.ElfGabi Spec.C09Dyn Model.C09Dynamic.
-From PV Require Import Proofs.C09Tables Proofs.C09Tags Proofs.C09Hash Proofs.C09Views Proofs.C09Relocs Proofs.C09Syms Proofs.C09Examples.
+From PV Require Import Proofs.C09Tables Proofs.C09Tags Proofs.C09Hash Proofs.C09Views Proofs.C09Relocs Proofs.C09Syms Proofs.C09Seg Proofs.C09Examples.
 Open Scope string_scope.
 Open Scope list_scope.
 Open Scope Z_scope.
@@ -233,4 +233,25 @@ Print Assumptions C09_views_agree_symbols.
 Example C09_views_agree_symbols_nonvacuous :
   sym_consistent_b ex3_img = true /\ stripped_of_b ex3_img ex3_img' = true /\ all_bytes ex3_img' = true /\
   match segment_symbols ex3_img' with Ok l => Some (map snd l) | Err _ => None end = Some [[]; [102; 111; 111]].
+Proof. vm_compute. repeat split. Qed.
+
+(* ---- the segment view alone: for EVERY image in which no SHT_DYNAMIC section lies at the offset of
+   PT_DYNAMIC - the section header table is absent, or it describes ANOTHER dynamic array elsewhere,
+   linked to ANOTHER string table - the DynamicSegment yields the segment's own entries up to and
+   including DT_NULL, with string-valued tags resolved in the table that its own DT_STRTAB / DT_STRSZ
+   designate through the PT_LOAD map (never in the table some section links) *)
+Theorem C09_segment_view_alone : forall img, seg_consistent_b img = true ->
+  exists s, describe_seg img = Some s /\ segment_tags img = Ok (expected_seg_view img s).
+Proof. exact segment_view_alone. Qed.
+Print Assumptions C09_segment_view_alone.
+
+Example C09_segment_view_alone_nonvacuous :
+  seg_consistent_b ex4_img = true /\ seg_consistent_b ex4_img' = true /\ consistent_b ex4_img = false /\
+  segment_tags ex4_img = segment_tags ex4_img' /\
+  segment_tags ex4_img =
+  Ok [(EN "DT_NEEDED", 1, Some [108; 105; 98; 99]); (EN "DT_SONAME", 6, Some [102; 111; 111]);
+      (EN "DT_STRTAB", 4352, None); (EN "DT_STRSZ", 10, None); (EN "DT_NULL", 0, None)] /\
+  section_tags ex4_img =
+  Ok [(EN "DT_NEEDED", 1, Some [76; 73; 66; 67]); (EN "DT_STRTAB", 4362, None); (EN "DT_STRSZ", 10, None);
+      (EN "DT_NULL", 0, None)].
 Proof. vm_compute. repeat split. Qed.
